@@ -18,7 +18,6 @@ package c11
 import (
 	"encoding/json"
 	"fmt"
-	"os"
 	"sort"
 	"strconv"
 	"strings"
@@ -989,9 +988,6 @@ func Run(c *vh.Ctx) {
 
 	// 0. the value catalogue: every kind of value created before a gate and used after it
 	valueStreams(rn)
-	if os.Getenv("VERIF_C11_ONLY") == "vals" {
-		return
-	}
 
 	// 1. the negation witnesses of the property file, one server each
 	for _, w := range witnesses() {
